@@ -95,10 +95,19 @@ def case_scan(case):
     res = {"case": case, "disagree": [], "oracle": [], "nontrivial": False}
     # ---- model: scanner state, includes, is_last (unit-level) ----
     m = driver.ask({"op": "scan", "scan": scan, "n": case["n"]})
+    if "raised" in out and "parse_error" not in out and "error" not in m and m.get("is_last_raises"):
+        # the run itself raised inside is_last (None in `these`): outside class K, not modelled
+        res["unmodelled"] = "is_last raises TypeError during the run"
+        if case.get("k") is not None:
+            res["oracle"].append({"what": "run raised for a scan part of class K", "real": out["raised"]})
+        return res
     if "parse_error" in out or "raised" in out:
         real_err = out.get("parse_error") or out.get("raised")
-        if m.get("error") != real_err:
-            res["disagree"].append({"what": "exception class", "real": real_err, "model": m})
+        # parse-time exception classes are canonicalised to "rejected": PLY runs semantic actions
+        # for the part it has reduced before it reports a syntax error, so which of ScanException /
+        # UnexpectedProductionException / TypeError comes first depends on LALR default reductions
+        if "error" not in m:
+            res["disagree"].append({"what": "real rejects, model accepts", "real": real_err, "model": m})
         res["rejected"] = real_err
         if case.get("k") is not None:
             res["oracle"].append({"what": "scan part of class K rejected", "real": real_err})
@@ -111,15 +120,25 @@ def case_scan(case):
     if real_state != m["state"]:
         res["disagree"].append({"what": "scanner state", "real": real_state, "model": m["state"]})
     idxs = range(case["n"] + 3)
-    try:
-        real_inc = [i for i in idxs if sc.includes(i)]
-        real_last = [i for i in idxs if sc.is_last(i)]
-    except Exception as e:  # noqa: BLE001
-        real_inc = real_last = f"raised {e.__class__.__name__}"
+    real_inc = [i for i in idxs if sc.includes(i)]
+    real_last, real_last_raises = [], []
+    for i in idxs:
+        try:
+            if sc.is_last(i):
+                real_last.append(i)
+        except TypeError:
+            real_last_raises.append(i)
     if real_inc != m["includes"]:
         res["disagree"].append({"what": "includes", "real": real_inc, "model": m["includes"]})
-    if real_last != m["is_last"]:
+    if real_last_raises != m["is_last_raises"]:
+        res["disagree"].append({"what": "is_last raising TypeError", "real": real_last_raises, "model": m["is_last_raises"]})
+    if [i for i in real_last] != [i for i in m["is_last"] if i not in m["is_last_raises"]]:
         res["disagree"].append({"what": "is_last", "real": real_last, "model": m["is_last"]})
+    if m["is_last_raises"]:
+        res["unmodelled"] = "is_last raises TypeError (scan part outside class K leaves None in `these`)"
+        if case.get("k") is not None:
+            res["oracle"].append({"what": "is_last raises for a scan part of class K", "lines": real_last_raises})
+        return res
     # ---- model: run loop under the recorded matcher ----
     mr = driver.ask({"op": "run", "scan": scan, "recs": recs, "method": "collect", "script": out["script"]})
     for key, rv in (("lines", out["lines"]), ("flags", out["flags"]), ("scan_count", out["scan_count"]),
